@@ -107,6 +107,12 @@ def cases(rng, tier):
             text = "".join(chr(rng.choice([rng.randrange(0x3131, 0x318F), rng.randrange(0xAC00, 0xD7A4), rng.randrange(0x20, 0x7F),
                                            rng.randrange(0x1100, 0x1200), 10, 0x1F600])) for _ in range(rng.randint(0, 12)))
             tag = 'chars'
+        if tag != 'chars' and rng.random() < 0.3:
+            # characters other line-splitting routines treat as line ends (str.splitlines: FF, VT, CR, FS, GS, RS, NEL, LS, PS):
+            # here only U+000A ends a line, all of them are plain word separators within their line (seeded change S09h)
+            for _ in range(rng.randint(1, 3)):
+                text = text.replace(" ", rng.choice(["\x0c", "\x0b", "\r", "\r\n", "\x1c", "\x1d", "\x1e", "\x85", "\u2028", "\u2029", "\t"]), 1)
+            tag += '+linelike'
         yield Case(program=text, tag=tag, monitor='c09_parse', skip_model=True, nontrivial=len(respell.skeleton(text)) >= 2)
 
 
@@ -114,7 +120,7 @@ SPEC = {
     'lean': ['C09', 'C01'],
     'cases': cases,
     'stream': 'C09 parse stream (parse.parse trees with spans vs uhdrv parse)',
-    'rule': 'random trees (arity 0–12, depth ≤ 4) printed in postfix and re-spelled / split over lines, also with every number word (value, arity, frame number, function index) in a random spelling (zero padding; zero in both parities); fuzz word '
+    'rule': 'random trees (arity 0–12, depth ≤ 4) printed in postfix and re-spelled / split over lines (also with FF / VT / CR / FS / GS / RS / NEL / LS / PS between words, which are not line ends), also with every number word (value, arity, frame number, function index) in a random spelling (zero padding; zero in both parities); fuzz word '
             'sequences over the consonant alphabet (all malformed shapes); random characters. The implementation\'s trees '
             'with (line, start, end) of every node, or its syntax exception and location, must equal the model parser\'s; '
             'non-trivial = at least two words',
